@@ -180,6 +180,21 @@ def run(ctx):
             if len(samples) < 3 and cls in ("malformed", "valid", "short"):
                 samples.append({"file": name, "class": cls, "answers": per_api})
 
+        # ---------------------------------------------------------------- failed opens leave nothing behind
+        ps = run_list(ctx, csim, ["openstress", "--list", "{list}", "--valid", os.path.join(d0, "trunc-72")], [p for p in paths if os.path.basename(p) != "trunc-72"])
+        stress_lines = ps.stdout.splitlines()
+        stress = {"files": len(stress_lines), "opens_each": 100, "descriptor_limit": 64}
+        if ps.returncode != 0 or not stress_lines:
+            viol.append({"sig": "openstress-crash", "detail": "repeated opens exited %d: %s" % (ps.returncode, ps.stderr[-300:]), "replay": ""})
+        for ln in stress_lines:
+            evaluations += 1
+            f = [x.strip() for x in ln.split("|")]
+            if f[1].split("=", 1)[1] != f[2].split("=", 1)[1] or not f[4].endswith("OPENED"):
+                rp = os.path.join(ctx.replay_dir, "C16-openstress-%s.bin" % os.path.basename(f[0]))
+                if os.path.isfile(f[0]):
+                    shutil.copy(f[0], rp)
+                viol.append({"sig": "failed-opens-exhaust-descriptors", "detail": "opening %s 100 times in one process (descriptor limit 64): first outcome %s, last outcome %s, %s; a valid segment then: %s" % (os.path.basename(f[0]), f[1], f[2], f[3], f[4]), "replay": rp})
+
         # ---------------------------------------------------------------- repair
         repair_stats = {}
         for dname, d in dirs:
@@ -251,11 +266,12 @@ def run(ctx):
         "evaluations": evaluations,
         "distinct_nontrivial": len(distinct),
         "rule": "corpus: every truncation length 0..80 of a valid segment (exhaustive), every header field at edge values, magic bytes flipped one at a time, the three readings of the documented magic, two-defect files, valid headers with short/random bodies, random bytes of length 0..256, path kinds (missing, directory, symlink, dangling symlink, /dev/null, missing directory); "
-                "each file opened through ClockBoundClient, ShmReader and clockbound_open (C, ASan+UBSan; thorough: also valgrind) and compared with the decision table of the statement; then daemon start-up + first publication over each file on tmpfs and on a disk-backed directory, a new client reading (A) while the writer lives and (B) after the writer is gone, the file fsync'ed and its page cache dropped; "
+                "each file opened through ClockBoundClient, ShmReader and clockbound_open (C, ASan+UBSan; thorough: also valgrind) and compared with the decision table of the statement; each file also opened 100 times in one process under a descriptor limit of 64, after which a valid segment must still open (failed opens leave nothing behind); then daemon start-up + first publication over each file on tmpfs and on a disk-backed directory, a new client reading (A) while the writer lives and (B) after the writer is gone, the file fsync'ed and its page cache dropped; "
                 "distinct_nontrivial = distinct corpus files (all non-trivial: each has an expected outcome)",
         "samples": samples,
         "open_outcome_matrix": matrix,
         "repair": repair_stats,
+        "repeated_opens": stress,
         "exhaustive_over": "truncation lengths 0..80",
     }
     finish(ctx, coverage, viol, inconclusive, assumptions=["checks run as root: permission errors are not exercised", "FIFOs excluded (open(O_RDONLY) blocks by POSIX)",
